@@ -629,6 +629,11 @@ class Executor:
     raise ContinueSig()
 
   def st_If(self, s):
+    for pred, why in self.contract.abstract_stmts:
+      if pred(s):
+        # statement-level abstraction: the variables it assigns become arbitrary
+        self.havoc_locals(extract.assigned_names([s]), 'abs')
+        return
     if self.decide_truth(self.ev(s.test), s.test):
       self.exec_block(s.body)
     else:
@@ -869,7 +874,8 @@ class Executor:
     if spec.keep:
       names -= set(spec.keep)
     fr = self.frame
-    # ghost state available to invariants
+    if spec.before:
+      spec.before(self, self.loop_ctx(it))
     ctx0 = self.loop_ctx(it)
     for cl in spec.invariants:
       path.oblige(f'{q}/inv#{n}/init/{cl.label}', cl.fn(ctx0, z3.IntVal(0)), cl.props)
@@ -930,6 +936,9 @@ class Executor:
   def havoc_locals(self, names, n):
     fr = self.frame
     for name in sorted(names):
+      if name in fr.env and isinstance(fr.env[name], VPy) and \
+          fr.env[name].what in ('emptylist', 'emptydict', 'listlit'):
+        self.oos(f'local `{name}` needs a declared kind (contract.local_kinds)')
       if name.startswith('self.'):
         selfw = fr.env.get('self')
         attr = name[5:]
@@ -1602,13 +1611,17 @@ class Executor:
         if default is None:
           self.oos(f'missing argument {n} for {c.qual}', node)
         a[n] = default(self)
+      if kind is None:
+        continue
       a[n] = self.world.materialize(self, a[n], kind)
       a[n] = coerce(a[n], kind) if not isinstance(a[n], VNone) or isinstance(kind, KOpt) \
           else a[n]
     args_snap = {k: snapshot(v) for k, v in a.items()}
     old = self.snapshot_state()
-    self.path.trace.append({'call': c.qual, 'args': args_snap, 'state': old,
-                            'node': node})
+    tr = {'call': c.qual, 'args': args_snap, 'state': old, 'node': node}
+    self.path.trace.append(tr)
+    if c.custom is not None:
+      return c.custom(self, args_snap, node)
     ctx = Ctx(self.path, args_snap, old, old, ghost=self.path.ghost,
               trace=self.path.trace)
     if selfw is not None:
@@ -1636,6 +1649,8 @@ class Executor:
       hook = getattr(c, 'on_call', None)
       if hook:
         hook(self, ctx2)
+      tr['result'] = result
+      tr['state_after'] = ctx2.new._d
       return result
     if choice <= len(c.raises):
       case = c.raises[choice - 1]
